@@ -7,11 +7,11 @@ PROP = dict(
          'absent options, entries of the built-in scripts): regular files of 0..300000 bytes, directories, symlinks with '
          'targets of 1..4095 bytes, char and block devices with majors up to 4095 and minors up to 2^20-1, absent paths, '
          'setuid/setgid/sticky modes, ids up to 2^32-1, mtimes from 1901 to 2446, 0..12 xattrs with name lists beyond 256 '
-         'bytes and values beyond 1024 bytes, hard-link groups, groups of src= entries copying one inode that lives inside the build root (singly or multiply linked, staged or not, path written as $$stageroot/..., absolute or relative); every 6th case is also produced through gzip, bzip2 and xz. '
+         'bytes and values beyond 1024 bytes, hard-link groups, groups of src= entries copying one inode that lives inside the build root (singly or multiply linked, staged or not, path written as $$stageroot/..., absolute or relative); every 6th case is also produced through gzip, bzip2 and xz; every 3rd case (and 1 in 6 of the others) repeats the run 1..2 times onto an -o path that EXISTS already (random/zero/0xff/text bytes or the stage of an earlier real run on a bigger tree or through another compressor; empty, shorter than, as long as, 1 byte .. many times longer than the output; plain and each compressor, method by flag or by file name) and reads the file back IN FULL: length, nothing but zeros after the tar end-of-archive marker / decompressor (Go reader and the program -t) consumes the last byte, same archive as the fresh path. '
          'Non-trivial: some member is not a default regular file (special bits, non-root or big ids, link, device, xattr, '
          'override, absent); distinct by the multiset of (origin, entry type, field-value classes) of the members',
     explanation='theorems: header_faithful, override_exact, absent_defaults, dev_roundtrip (all 64-bit st_rdev), '
-                'readlink/xattr buffer loops complete and terminating, compress_same under the filter law; per case Coq '
+                'readlink/xattr buffer loops complete and terminating, compress_same under the filter law, output_exact/independent (the -o file is the written bytes for every previous content of the path; Model/OutFile.v); per case Coq '
                 'evaluates wf, model=observed headers, spec(observed headers)',
     assumptions=['archive/tar (writer and reader), the kernel\'s lstat/readlink/xattr calls and the gzip, bzip2 and xz '
                  'programs are validated by read-back only: a header field is observed through Go\'s archive/tar reader',
